@@ -160,7 +160,7 @@ def replay(ctx, data):
             return 1
         print(out[-400:])
         return 0 if rc == 0 else 1
-    case = {k: inp[k] for k in ("lists", "progs", "sched", "stress", "seed", "elem") if k in inp}
+    case = {k: inp[k] for k in ("lists", "progs", "sched", "stress", "seed", "elem", "script") if k in inp}
     rep = ctx.harness("c16", ["replay", json.dumps(case)])
     if rep is None:
         return 1
